@@ -121,8 +121,6 @@ def _distribution(cases, results):
                 if m.group(2) == "t":
                     d["runs_limiter_on_context"] = d.get("runs_limiter_on_context", 0) + 1
                     d["limiter_consultations"] = d.get("limiter_consultations", 0) + int(m.group(3))
-            if "(arr (arr " in c:
-                d["runs_nested_list_plan"] = d.get("runs_nested_list_plan", 0) + 1
             if "(deferred t)" in c:
                 d["runs_deferred"] = d.get("runs_deferred", 0) + 1
             if "(ref (skip))" in c:
@@ -132,7 +130,7 @@ def _distribution(cases, results):
                 d["runs_with_requires_dependents"] += 1
             if re.search(r'\(starving \d', c):
                 d["runs_with_held_back_input_fetch"] += 1
-            for g in re.finditer(r"\(g \d+ \"[^\"]*\" \w+ \(roots[^)]*(?:\([^)]*\))*\) (\w) (\w) (\w)\)", c):
+            for g in re.finditer(r"\(g \d+ \"[^\"]*\" \w+ \(roots[^)]*(?:\([^)]*\))*\) (\w) (\w) (\w) \(req ", c):
                 if g.group(2) == "t":
                     d["gate_verdicts_compared"] += 1
                     if g.group(1) == "f":
